@@ -1276,6 +1276,24 @@ class _FuncAnalysis:
         if k == 'ImplicitCastExpr' and e.get('cast') == 'LValueToRValue' and self.top.check_reads:
             self.read(st, e)
             return st
+        if k == 'BinaryOperator' and e.get('op') in ('&', '>>', '%') and len(e.ch) == 2:
+            # x & K, x % K and (unsigned char) x >> k have a small range whatever x is: the node's own symbol carries it
+            hi = None
+            l_, r_ = strip(e.ch[0]), strip(e.ch[1])
+            if e['op'] == '&':
+                ks = [x.get('v') for x in (l_, r_) if x is not None and x.get('v') is not None and x.get('v') >= 0]
+                hi = min(ks) if ks else None
+            elif e['op'] == '%' and r_ is not None and (r_.get('v') or 0) > 0 and is_unsigned(l_.get('ct') if l_ is not None else ''):
+                hi = r_['v'] - 1
+            elif e['op'] == '>>' and r_ is not None and r_.get('v') is not None and 0 <= r_['v'] < 8 and l_ is not None and \
+                    (l_.get('ct') or '').strip() in ('unsigned char', 'uint8_t'):
+                hi = 255 >> r_['v']
+            if hi is not None:
+                sym = ('opaque', e.id)
+                facts = self.project(st.facts, lambda q: q == sym)
+                facts = self.add(facts, Lin.sym(sym), Lin.const(hi) - Lin.sym(sym))
+                return State(facts, st.regions)
+            return st
         if k == 'ReturnStmt' and e.ch:
             if getattr(self, 'collect_ret_states', None) is not None:
                 self.collect_ret_states.append((st, self.lin(e.ch[0], st)))
@@ -1851,6 +1869,23 @@ class _FuncAnalysis:
                         if (c['op'] == '==') == truth:
                             return self.char_fact(ptr, True, st)
                         return []
+            # a character of the string compared by order with a constant: `s[i] >= '0'` can only hold for a character
+            # that is not the terminator
+            for x, y, flip in ((c.ch[0], c.ch[1], False), (c.ch[1], c.ch[0], True)):
+                sx = self._char_read(x)
+                yv = strip(y).get('v')
+                if sx is None or yv is None or c['op'] in ('==', '!='):
+                    continue
+                op_ = c['op']
+                if flip:
+                    op_ = {'<': '>', '<=': '>=', '>': '<', '>=': '<='}[op_]
+                if not truth:
+                    op_ = {'<': '>=', '<=': '>', '>': '<=', '>=': '<'}[op_]
+                if (op_ == '>=' and yv >= 1) or (op_ == '>' and yv >= 0):
+                    if sx.k == 'ArraySubscriptExpr' and strip(sx.ch[1]).get('v') != 0:
+                        return self.char_at_fact(sx, True, st)
+                    return self.char_fact(sx.ch[0], True, st)
+                return []
             a, b = self.lin(c.ch[0], st), self.lin(c.ch[1], st)
             if a is None or b is None:
                 return None
@@ -2065,6 +2100,7 @@ class _FuncAnalysis:
         if len(rest) <= 60:
             allf = list(fa | fb)
             tried = set()
+            syms_a = syms_b = None
             for i, f in enumerate(rest):
                 # the partner may be a fact that survived the join on its own (it holds on both sides with slack on one)
                 for g in (rest[i + 1:] if len(rest) <= 14 else []) + [g for g in allf if g not in rest or len(rest) > 14]:
@@ -2079,6 +2115,29 @@ class _FuncAnalysis:
                     tried.add(h)
                     if self.entails(a, h) and self.entails(b, h):
                         keep.add(h)
+                        continue
+                    # the same sum without its negative terms in quantities that cannot be negative (x - n >= 0 and
+                    # n >= 0 give x >= 0): weaker, and often what the two sides have in common (a separator that is
+                    # present on one side only)
+                    if syms_a is None:
+                        syms_a = {q for x in fa for q in x.t}
+                        syms_b = {q for x in fb for q in x.t}
+                    # only quantities one side knows nothing about (a local of the branch that was not taken)
+                    drop = [q for q, c_ in h.t.items() if c_ < 0 and q[0] == 'var' and (q not in syms_a or q not in syms_b) and
+                            (q in self.unsigned_syms or is_unsigned(self.var_types.get(q[1], '')) or
+                             'size_t' in self.var_types.get(q[1], ''))]
+                    if drop and len(drop) < len(h.t):
+                        h2 = Lin({q: c_ for q, c_ in h.t.items() if q not in drop}, h.c)
+                        k2 = frozenset(h2.t.items())
+                        for k in (0, 1, 2):     # and off by a small constant, as for single facts below
+                            h3 = h2 + Lin.const(k)
+                            if h3 in keep or h3 in tried or any(
+                                    x.c <= h3.c for x in keep if len(x.t) == len(h3.t) and frozenset(x.t.items()) == k2):
+                                break
+                            tried.add(h3)
+                            if self.entails(a, h3) and self.entails(b, h3):
+                                keep.add(h3)
+                                break
         # two variables that are stepped together, once each, in one basic block (`*out++ = *src++; room--;`): their
         # sum or difference is a loop invariant although nothing cancels in it
         pairs = self.lockstep_pairs()
@@ -2187,9 +2246,14 @@ class _FuncAnalysis:
                 else:
                     new = self.join(old, out)
                     visits[s] = visits.get(s, 0) + 1
-                    if visits[s] > 3:
+                    if visits[s] > 8:
                         # widening: only facts of the old state survive
                         new = State(frozenset(f for f in old.facts if f in new.facts), new.regions)
+                    elif visits[s] > 3:
+                        # a few more rounds in which a fact the incoming state states and the old state implies may
+                        # still be adopted (an invariant found at the loop head after the body had been walked with the
+                        # exact entry values); then the strict form above ends the iteration
+                        new = State(frozenset(f for f in new.facts if f in old.facts or f in out.facts), new.regions)
                 if new != old:
                     instate[s] = new
                     if s not in inq:
